@@ -36,6 +36,12 @@ def gen_scenario(seed, i):
         else:
             a["apps"] = rng.sample(apps, rng.randint(1, len(apps)))
             a["builders"] = rng.sample(builders, rng.randint(1, len(builders)))
+        if rng.random() < 0.06:
+            # `-b "b0, b1"`: a name with a blank is not the name of a builder / app (reported as unknown, nothing is built)
+            k = rng.choice([x for x in ("builders", "apps") if a.get(x)])
+            a[k] = list(a[k])
+            i = rng.randrange(len(a[k]))
+            a[k][i] = rng.choice([" " + a[k][i], a[k][i] + " "])
         return a
     defined = set()
     for kind, m, path in projcheck.yaml_modules(p):
